@@ -277,7 +277,7 @@ pub fn run(ctx: &Ctx) -> Report {
     let cases = ctx.tier.pick(300_000u32, 3_000_000u32);
     let rnd = run_shards(16, |shard| {
         let mut st = Stats::new();
-        let strat = gen::expr_over(full_leaf(), 5, 20, true);
+        let strat = gen::related(gen::expr_over(full_leaf(), 5, 20, true), true);
         run_prop(&mut st, ctx.seed, "C12", shard as u64, cases / 16, &strat, judge, case_json);
         st
     });
